@@ -227,6 +227,41 @@ func c17Probes() []c17Probe {
 				}
 			})
 		}},
+		{"AddChain x4 released together after RefreshRoots", []string{"Distributor.addSomeChain.func1"}, []string{"Distributor.addSomeChain.func1"}, func(t *testing.T) {
+			// the first users of a freshly refreshed root pool: they only hold the distributor's READ lock
+			chain := [][]byte{c17Leaf(c17PKI()[1], time.Date(2023, 1, 1, 0, 0, 0, 0, time.UTC), time.Date(2023, 12, 1, 0, 0, 0, 0, time.UTC), false), c17PKI()[1].der}
+			for it := 0; it < 25; it++ {
+				logs := c17ProbeLogs()
+				for _, l := range logs {
+					l.roots = []int{0, 1, 2, 3, 4}
+				}
+				sub := &c17Submitter{start: time.Now(), scripts: map[string]c17Script{}}
+				for _, l := range logs {
+					sub.scripts[l.url] = l.script
+				}
+				d, err := NewDistributor(c17LogList(logs), ctpolicy.ChromeCTPolicy{}, c17Builder(logs, sub), nil)
+				if err != nil {
+					panic(err)
+				}
+				d.RefreshRoots(context.Background())
+				release := make(chan struct{})
+				var wg sync.WaitGroup
+				for k := 0; k < 4; k++ {
+					wg.Add(1)
+					go func() {
+						defer wg.Done()
+						<-release
+						ctx, cancel := context.WithTimeout(context.Background(), 5*time.Second)
+						defer cancel()
+						if _, err := d.AddChain(ctx, chain, false); err != nil {
+							fmt.Println("PROBE-SUBMISSION-FAILED " + err.Error())
+						}
+					}()
+				}
+				close(release)
+				wg.Wait()
+			}
+		}},
 		{"request||setResult||collect", []string{"safeSubmissionState.request", "safeSubmissionState.groupComplete"},
 			[]string{"safeSubmissionState.setResult", "safeSubmissionState.collectSCTs"}, func(t *testing.T) {
 				c17Both(40, func() (func(), func()) {
@@ -290,6 +325,13 @@ func c17LockProbes(out *verifkit.Out) {
 			out.T(op, "probe-crashed")
 			out.Fail("probe/crash "+p.name, tail)
 			continue
+		}
+		if i := strings.Index(o, "PROBE-SUBMISSION-FAILED "); i >= 0 {
+			line := o[i:]
+			if j := strings.Index(line, "\n"); j >= 0 {
+				line = line[:j]
+			}
+			out.Fail("probe/submission-failed "+p.name, "every log accepts the chain's root and answers, yet: "+line)
 		}
 		if !strings.Contains(o, "WARNING: DATA RACE") {
 			out.T(op, "norace")
